@@ -435,6 +435,7 @@ func runSession(alpha []sEvent, hist []int, o sessOpts) *sessResult {
 		vrand.Reset()
 		venv.Reset()
 		vfuel.Set(5_000_000)
+		env.DirtyPool() // every history starts with recycled (non-zero) frame buffers in the library's pool
 		var s *packet.Session
 		s, conn = env.NewSession(sessNIC(), packet.Config{ProbeDeadline: o.probe, OfflineDeadline: o.offline, PurgeDeadline: o.purge})
 		vsched.WaitIdle()
